@@ -361,6 +361,18 @@ func (ev *Evaluator) eval1(n jast.Node, in Value, env *Env) (Value, *Err) {
 		recurseDesc(s, in)
 		return s, nil
 	case *jast.Group:
+		if p, ok := n.X.(*jast.Path); ok {
+			// the items of a path are grouped as the path selects them: a single
+			// item that is an array (a constructor unit) is one item, not the list
+			v, err := ev.evalPath(p, in, env)
+			if err != nil {
+				return Undef, err
+			}
+			if sq, ok := v.(*Seq); ok {
+				v = append([]interface{}{}, sq.Items...)
+			}
+			return ev.evalObject(n.Pairs, v, env)
+		}
 		items, err := ev.eval(n.X, in, env)
 		if err != nil {
 			return Undef, err
